@@ -4,6 +4,7 @@ EXTENDS Core
 Order1 == <<"A">>
 Hooks_none1 == ("A" :> {})
 Opts_plain == {[os |-> FALSE, ac |-> FALSE]}
+Opts_os == {[os |-> FALSE, ac |-> FALSE], [os |-> TRUE, ac |-> FALSE]}
 Opts_all == {[os |-> FALSE, ac |-> FALSE], [os |-> TRUE, ac |-> FALSE], [os |-> FALSE, ac |-> TRUE]}
 Tb_vals2 == {<<0, 0>>, <<2, 1>>, <<2, 2>>}
 Tb_vals == {<<0, 0>>, <<1, 0>>, <<1, 1>>, <<1, 2>>}
